@@ -5,6 +5,7 @@ pub mod c14;
 pub mod c19;
 pub mod px;
 pub mod c18;
+pub mod c17;
 
 pub type Suite = fn(&[i128]) -> Vec<i128>;
 
@@ -16,6 +17,7 @@ pub fn suites() -> Vec<(&'static str, Suite)> {
         ("c19", c19::run as Suite),
         ("px", px::run as Suite),
         ("c18", c18::run as Suite),
+        ("c17", c17::run as Suite),
     ]
 }
 
